@@ -66,7 +66,7 @@ func genBulkBody(r *rand.Rand, n int, prefix string, withStoreFault bool) (strin
 func genBulkPlan(r *rand.Rand, faulty bool) *plan.Plan {
 	k := plan.Knobs{Sched: true, Procs: []int{1, 2, 4}[r.IntN(3)], PQS: &boolF}
 	p := &plan.Plan{Knobs: k, Params: map[string]any{"faulty": faulty}}
-	inc := plan.Incarnation{Boot: "full", SchedSeed: r.Uint64() | 1}
+	inc := plan.Incarnation{Boot: "full", SchedSeed: r.Uint64()>>11 | 1}
 	nreq := 1 + r.IntN(3)
 	idxSet := map[string]bool{}
 	for q := 0; q < nreq; q++ {
